@@ -64,7 +64,11 @@ var walkSorted = opSpec{"walksorted", nil, ""}
 
 // extras join the alphabet as single-operation programs and in two-operation
 // programs next to every writing operation (thorough: next to every operation).
-var extras = []opSpec{addDeep, walkSorted}
+// addTop adds below a first element that no initial tree has: the root itself
+// is the node whose lock is exchanged (no ancestor stays read-locked meanwhile).
+var addTop = opSpec{"add", []string{"d", "e"}, "v1"}
+
+var extras = []opSpec{addDeep, walkSorted, addTop}
 
 var alphaQuick = []opSpec{
 	{"add", ab, "v1"}, {"add", ac, "v1"}, {"add", ab, "v2"},
